@@ -136,6 +136,7 @@ type runner struct {
 	n        *chainx.Node
 	m        *statesync.Module
 	rs       *chainx.RecStore
+	base     []chainx.Batch // batches that made the initial content of rs (after a crash)
 	tr       []Ev
 	initH    uint32
 	nRestart int
@@ -713,7 +714,10 @@ func (r *runner) do(e Ev) (v *viol) {
 		if pan != nil {
 			break
 		}
-		r.rs = chainx.NewRecStore(chainx.ApplyBatches(log, cut))
+		// the crashed database = everything this lineage of stores ever persisted
+		// (a store created by an earlier crash does not log its initial content)
+		r.base = append(append([]chainx.Batch{}, r.base...), log[:cut]...)
+		r.rs = chainx.NewRecStore(chainx.ApplyBatches(r.base, len(r.base)))
 		r.nRestart++
 		r.stats.crashes.Inc()
 		before = 0
@@ -891,6 +895,9 @@ func (r *runner) final() (*viol, string) {
 		dig = digestStore(r.rs.Inner)
 		r.initH = src.tip
 		if v = r.open(); v != nil {
+			if v.Oracle == "outdated" {
+				v.Oracle = "init-failed:sync-point-outdated-on-a-synchronised-node"
+			}
 			return nil
 		}
 		if r.m.IsActive() {
@@ -1107,7 +1114,10 @@ func badBlock(b *block.Block, variant int) *block.Block {
 		if len(b.Transactions) > 0 {
 			b.Transactions = b.Transactions[:len(b.Transactions)-1]
 		} else {
-			b.Transactions = []*transaction.Transaction{transaction.New([]byte{0x11}, 1)}
+			tx := transaction.New([]byte{0x11}, 1)
+			tx.Signers = []transaction.Signer{{Account: util.Uint160{1}}}
+			tx.Scripts = []transaction.Witness{{}}
+			b.Transactions = []*transaction.Transaction{tx}
 		}
 	case 1:
 		b.Timestamp++
